@@ -66,10 +66,17 @@ structure St where
 def runCase (s : St) : String :=
   match s.langs.lookup s.lang, parseDump s.old.toList, parseDump s.new.toList with
   | some li, some o, some n =>
-    let ch := treeChangedRanges li.alias s.fixed o n
-    let corr := if ch.fuelOut then "DIFF fuel"
-      else if decide (ch.ranges = s.reported) then "ok"
-      else s!"DIFF model={outStr ch.ranges} impl={outStr s.reported}"
+    -- both variants of the included-range override (Iter.lean, `fixed`); which one /repo has is decided
+    -- BEHAVIOURALLY by checks/c04.py: the variant that reproduces the implementation on the cases of this run
+    let chF := treeChangedRanges li.alias true o n
+    let chA := treeChangedRanges li.alias false o n
+    let corrOf := fun (c : Changed) => if c.fuelOut then "DIFF fuel"
+      else if decide (c.ranges = s.reported) then "ok"
+      else s!"DIFF model:{outStr c.ranges} impl:{outStr s.reported}"
+    let corrF := corrOf chF
+    let corrA := corrOf chA
+    let ch := if corrF == "ok" || corrA != "ok" then chF else chA
+    let corr := if corrF == "ok" || corrA == "ok" then "ok" else corrF
     let v := judgeChanged li o n s.reported s.len
     let j := match v.fail with
       | none => "ok"
@@ -80,7 +87,7 @@ def runCase (s : St) : String :=
     let cause := match v.fail with
       | none => "-"
       | some _ =>
-        if !s.fixed && fixedV.fail.isNone && !decide (o.ranges = n.ranges)
+        if fixedV.fail.isNone && !decide (o.ranges = n.ranges)
         then "override-span-in-padding"
         else if v.uncovered > 0 && v.uncoveredInToken == 0 && !decide (o.ranges = n.ranges) && rangesOrdered s.reported
           && !s.reported.any (fun r => r.end_byte > max s.len (max o.root.totalBytes n.root.totalBytes))
@@ -93,7 +100,7 @@ def runCase (s : St) : String :=
       else "bad:" ++ ",".intercalate ((ch.main ++ ch.post).map fun (a, b) => s!"{a.bytes}-{b.bytes}")
     let ms := if matchSound li o n ch.matched then "ok" else "bad"
     let rchg := if decide (o.ranges = n.ranges) then 0 else 1
-    s!"{s.id} corr={corr} judge={j} cause={cause} mono={mono} msound={ms} nr={s.reported.length} diffbytes={v.diffBytes} uncov={v.uncovered} uncovtok={v.uncoveredInToken} uncovlist={v.uncoveredBytes} same={v.coveredSame} rchg={rchg} calls={ch.main.length + ch.post.length} matched={ch.matched.length}{fixmsg}"
+    s!"{s.id} corr={corr} corrF={if corrF == "ok" then "ok" else "DIFF"} corrA={if corrA == "ok" then "ok" else "DIFF"} corrmsg={corrF} judge={j} cause={cause} mono={mono} msound={ms} nr={s.reported.length} diffbytes={v.diffBytes} uncov={v.uncovered} uncovtok={v.uncoveredInToken} uncovlist={v.uncoveredBytes} same={v.coveredSame} rchg={rchg} calls={ch.main.length + ch.post.length} matched={ch.matched.length}{fixmsg}"
   | _, _, _ => s!"{s.id} corr=BADINPUT judge=BADINPUT"
 
 def step (s : St) (line : String) : IO St := do
